@@ -47,3 +47,20 @@ contract("C13.group_find_tag_entry", file="hed/schema/hed_schema_group.py", func
              "C13.dispatch.resolved_by_owner_only": "implies(schema_namespace in self._schemas and tag_view(self._schemas[schema_namespace], w) is not None,"
                                                     " result[0] == tag_view(self._schemas[schema_namespace], w))",
          })
+
+# C13 "an unloaded prefix is an error": a single schema answers only for its own prefix - also for the EMPTY prefix when the schema was
+# loaded under a prefix (an unprefixed tag is then a tag of a library that is not loaded)
+contract("C13.schema_find_tag_entry", file="hed/schema/hed_schema.py", func="HedSchema.find_tag_entry",
+         params={"self": "HedSchema", "tag": "HedTag", "schema_namespace": "Str"},
+         returns="Tuple[Opt[TagEntry],Opt[Str],Opaque]", enc="native",
+         requires=["tag.__str__ == tag.tag", "len(schema_namespace) <= len(tag.tag)",
+                   "len(tag.tag[len(schema_namespace):].casefold()) == len(tag.tag[len(schema_namespace):])"],
+         lets={"w": "tag.tag[len(schema_namespace):].casefold()"},
+         ghost={"init": {"unmatched_reported": "False"},
+                "update": [("assign:validation_issues", "unmatched_reported = len(validation_issues) == 1 and validation_issues[0].severity == 1"
+                                                        " and validation_issues[0].code == 'TAG_NAMESPACE_PREFIX_INVALID'")]},
+         ensures={
+             "C13.single.prefix_of_another_library_is_error": "implies(schema_namespace != self._namespace, result[0] is None and result[1] is None"
+                 " and unmatched_reported)",
+             "C13.single.own_prefix_resolves": "implies(schema_namespace == self._namespace and tag_view(self, w) is not None, result[0] == tag_view(self, w))",
+         })
